@@ -3,6 +3,8 @@ package main
 // Bounded stand-ins, structural (dataflow) obligations and replay.
 
 import (
+	"time"
+	"context"
 	"encoding/json"
 	"fmt"
 	"go/token"
@@ -29,6 +31,7 @@ type extraResult struct {
 	Bounded     interface{}
 	Assumed     []string
 	Samples     []interface{}
+	Backend     string // what discharged the obligations of this extra check
 }
 
 func goEnv() []string {
@@ -44,6 +47,8 @@ func runExtras(eng *Engine, id, tier string, seed int64, work string) []extraRes
 		res = append(res, runBoundedCurves(eng, work, id, []string{"encode"}))
 	case "C14":
 		res = append(res, runBoundedCurves(eng, work, id, []string{"decode16.below-identity-margin"}))
+	case "C10", "C15":
+		res = append(res, runLeanLifting())
 	case "C08":
 		res = append(res, runBoundedICC(eng, work, tier, seed, []string{"delivery."}))
 	case "C17":
@@ -158,6 +163,28 @@ func runBoundedCurves(eng *Engine, work, id string, prefixes []string) extraResu
 		"oracle": "exact rational arithmetic (math/big), independent of math.Pow",
 	}
 	r.Samples = append(r.Samples, map[string]interface{}{"bounded": "srgb.From16Bit(i) vs ((i/65535+0.055)/1.055)^(12/5) within 3e-7 for every i"})
+	return r
+}
+
+// runLeanLifting checks /verif/lemmas/Lifting.lean with the installed Lean 4: the step from the per-iteration
+// facts (step contracts) to the whole-image statement, for any order of the iterations. It is a lemma over the
+// contracts' shape, not over the code; that the loops instantiate its hypotheses is argued in DESIGN.md.
+func runLeanLifting() extraResult {
+	r := extraResult{Obligations: 1, Backend: "lean-4"}
+	file := filepath.Join(verifDir, "lemmas", "Lifting.lean")
+	if _, err := os.Stat(file); err != nil {
+		file = "/verif/lemmas/Lifting.lean"
+	}
+	ctx, cancel := context.WithTimeout(context.Background(), 300*time.Second)
+	defer cancel()
+	out, err := exec.CommandContext(ctx, "lean", file).CombinedOutput()
+	text := string(out)
+	if err != nil || strings.Contains(text, "error") || strings.Contains(text, "sorryAx") || !strings.Contains(text, "'lifting'") {
+		r.Failures = append(r.Failures, extraFailure{Name: "lemma.lifting#lean", Reason: "the Lean proof of the lifting lemma is not accepted", Detail: firstLines(text, 20)})
+		return r
+	}
+	r.Discharged = 1
+	r.Samples = append(r.Samples, map[string]interface{}{"lemma": "lifting (lemmas/Lifting.lean): per-iteration footprint/frame facts + disjoint footprints + every pixel exactly once ==> whole-image statement, any iteration order", "backend": "lean 4", "axioms": strings.TrimSpace(text)})
 	return r
 }
 
